@@ -6,7 +6,7 @@ From Coq Require Import ZArith List Bool Reals.
 From Flocq Require Import Core.Core IEEE754.BinarySingleNaN.
 Import ListNotations.
 Require Import MS.Base.GoInt MS.Base.F64 MS.Model.Ticks MS.Model.TicksPF MS.Proofs.Ticks_facts MS.Proofs.Ticks_sweep
-  MS.Proofs.Ticks_sweep_all MS.Proofs.Ticks_equiv MS.Proofs.Ticks_accuracy MS.Proofs.Ticks_seconds_all.
+  MS.Proofs.Ticks_sweep_all MS.Proofs.Ticks_equiv MS.Proofs.Ticks_accuracy MS.Proofs.Ticks_seconds_all MS.Proofs.Ticks_decoder.
 Local Open Scope Z_scope.
 
 (** Order: for EVERY on-disk timeframe and EVERY pair of offsets inside an interval the encoder
@@ -110,6 +110,32 @@ Theorem C10_dec_fs_accuracy_partial : forall ipd k, (1 <= ipd <= 2 ^ 17)%Z -> (0
   ((1 - 4 * u) * p <= B2R (dec_fs ipd k) <= (1 + 4 * u) * p)%R.
 Proof. exact dec_fs_accuracy. Qed.
 Print Assumptions C10_dec_fs_accuracy_partial.
+
+(** Decoder (post-fix code), every intervalsPerDay <= 2^17 and every uint32 tick: the decoded offset
+    sec * 10^9 + nanosec is within 0.7 ns of the exact tick position P = k * interval / 2^32 — under the
+    boolean side condition [dec_nowrapb ipd k] (the decoder's `subseconds >= 1e9` branch is not taken;
+    it can only be taken when fractionalSeconds is the largest double below 1, where the code's
+    `fractionalSeconds++` would round 2 - 2^-53 up to 2). *)
+Theorem C10_dec_total_partial : forall ipd k, (1 <= ipd <= 2 ^ 17)%Z -> (0 <= k < 2 ^ 32)%Z ->
+  dec_nowrapb ipd k = true ->
+  let P := (1000000000 * (IZR k / tps_exact ipd))%R in
+  (P - 7 / 10 <= IZR (dec_offset ipd k) <= P + 7 / 10)%R.
+Proof. exact dec_total. Qed.
+Print Assumptions C10_dec_total_partial.
+
+(** Round trip for ALL timeframes and ALL offsets, analytically (no finite domain): under the same side
+    condition on the produced tick, the decoded time is in the interval, NOT AFTER the original,
+    less than interval/2^32 + 0.76 ns before it, and EXACT for 1-second intervals.  This is C10_full up
+    to (a) the side condition dec_nowrapb and (b) the gap bound interval/2^32 + 0.76 instead of
+    ceil(interval/2^32) (which it implies for every on-disk timeframe, not yet stated). *)
+Theorem C10_roundtrip_partial : forall ipd o, In ipd ipds -> (0 <= o < interval_ns ipd)%Z ->
+  dec_nowrapb ipd (enc ipd o) = true ->
+  let o' := dec_offset ipd (enc ipd o) in
+  (0 <= o' <= o)%Z
+  /\ (IZR (o - o') < IZR (interval_ns ipd) / 4294967296 + 76 / 100)%R
+  /\ (ipd = 86400%Z -> o' = o).
+Proof. exact roundtrip_nowrap. Qed.
+Print Assumptions C10_roundtrip_partial.
 
 (** Non-vacuity: an offset in a swept block (one of the last 5 ns of the second), and an in-range offset of 1Min *)
 Example C10_nonvacuous :
